@@ -267,6 +267,11 @@ VALUE_FORMS = [
     ('assign x 0 print not x println not 5', 'True False\n'),
     ('define f with a begin print a end f not 0', 'True'),
     ('repeat 2 with h cycle -90 begin print h end', '-90 90.0'),
+    # a named field may name a defined constant; a parameter of the same name hides it
+    ('define c 5 printf "{c}"', '5'),
+    ('define s "x" define f begin printf "{s}|{}" 1 end f', 'x|1'),
+    ('define c 5 define f with c begin printf "{c}" end f 7', '7'),
+    ('define c 5 define f with x begin printf "{x} {c:>3}" end f 7', '7   5'),
 ]
 
 
